@@ -11,7 +11,7 @@ CLAIMS = {
  'C18': ("priority-queue order of the weighted search only: DijkstraEntry::cmp is a total order over every f64 bit pattern, cheapest first, ties by id, partial_cmp consistent; the searches themselves are not decided", "§4 C18"),
  'C20': ("codec round trips (varint incl. long lists with one arbitrary value, delta, id lists sorted and unsorted, RLE), decoder totality on arbitrary bytes, TCP frame v1/v2 encode/decode inverse with the size limit, for every value within the stated lengths", "§4 C20"),
  'C01': ("per-handler inductive Raft obligations (terms monotone, one vote per term to an up-to-date candidate, persisted before reply, vote never changed within a term by any handler; AppendEntries acknowledges/commits only the vouched prefix and matches the leader's entries; leader commit rule; stale responses ignored; election quorum; pre-vote read-only) for every pre-state and message of the bounded shape; the composition into cluster-level safety is the textbook argument, not machine-checked", "§4 C01"),
- 'C02': ("durable store, log level: every acknowledged log record is read back in order after a crash at any byte of the last record (immediate sync) or at any length above the synced length (manual sync), after a further append + restart, and across truncate() (checkpoint step); put_durable/delete_durable write and fsync the record before the in-memory apply and do not apply on a log error; slab contents, snapshots and recovery of the store image are not decided", "§4 C02"),
+ 'C02': ("durable store, log level: every acknowledged log record is read back in order after a crash at any byte of the last record (immediate sync) or at any length above the synced length (manual sync), after a further append + restart, and across truncate() (checkpoint step), batched sync, and automatic rotation (one known finding: records moved to a rotated file are not replayed); put_durable/delete_durable write and fsync the record before the in-memory apply and do not apply on a log error; slab contents, snapshots and recovery of the store image are not decided", "§4 C02"),
  'C03': ("coordinator decision rules, one call from an arbitrary pending table (Prepared only from Preparing with a Yes from every participant, Aborting only when all voted and a vote is not Yes or a cross-shard conflict was found, commit only from Prepared with TxComplete logged before any lock release, recorded votes never replaced, errors change nothing, timeouts abort once, Yes-vote lock handles released) and participant handlers over the store's key/value contract (prepare applies nothing, commit applies exactly the prepared writes, abort/stale cleanup leave every key as it was, locks released; one known finding: a second prepare is granted on a key of a still-prepared transaction after the lock TTL); message interleavings across shards are not decided", "§4 C03"),
  'C04': ("index key encodings vs the row-level predicate for every Int/Float/Bool/Null pair (hash-index and ordered-index lookups are complete), OrderedFloat total preorder, and the vectorised filters bit for bit against the scalar predicate (f64 kernels in the MIR executor, i64 kernels and bitmap ops under Kani); plan equivalence over engine state is not decided", "§4 C04"),
  'C06': ("stored-representation round trip only: to_dense(try_from_dense(v)) for every f32 bit pattern up to the stated dimension, representation invariants; scores/top-k/HNSW/cache not decided", "§4 C06"),
